@@ -45,6 +45,30 @@ CHECKS = {
         note="Scenes from a committed list (<=3 sources incl. a collection and a class group, 1-2 sensors, path lengths 1..3); local field "
         "functions uninterpreted; SymRot quaternion model; dataframe output and style contents not modelled.",
         design="3/C08",
+        category="fault_enumeration",
+    ),
+    "C03": dict(
+        engine="E2",
+        technique="symbolic execution of the real getBH_level2 / getBH_level1 and of the real rotate()/move() (apply_rotation, apply_move, "
+        "path_padding) with unit-quaternion rotations over z3 terms; covariance discharged per element as QF_NRA obligations after "
+        "congruence-guided merging of the uninterpreted local-field applications",
+        text="Bounded symbolic model checking: for every local field function (uninterpreted), all real source pose paths, all unit "
+        "quaternions q0 and translations t0, moving the sources through the real API and the observers by the same motion rotates "
+        "every output element by q0. Scenes: static, path 3, unequal path lengths (tiling), a class group, a collection.",
+        note="Real arithmetic, unit input quaternions (SymRot model of scipy Rotation), <=2 top-level sources, path lengths <=3, <=2 observers.",
+        design="3/C03",
+    ),
+    "C04": dict(
+        engine="E2",
+        technique="symbolic execution of the real getBH_level2 (observer formatting, unrotated/static/rotating back-rotation paths selected by "
+        "== on symbolic quaternion components = solver-decided forks, handedness, pixel aggregation) over z3 terms; each element compared "
+        "with the reference q_k^-1 Field(q_k pix + p_k) as an SMT obligation",
+        text="Bounded symbolic model checking: all feasible combinations of the three back-rotation code paths are enumerated by the path "
+        "driver (coverage of each is asserted, else the check reports itself vacuous); on each, every output element equals the reference "
+        "for all real sensor poses, pixel offsets and source poses; left-handed sensors negate x only; pixel_agg mean/sum/min/max equal "
+        "the reduction over exactly that sensor's pixels, also for mixed pixel shapes.",
+        note="Real arithmetic, unit quaternions; 1-3 sensors, pixel layouts from a fixed list, path lengths <=3; median/std style reductions not decided.",
+        design="3/C04",
     ),
 }
 
@@ -71,7 +95,7 @@ def main():
                 "evidence_file": f"evidence/{pid}.json",
                 "replay_cmd_template": "./vf replay {path}",
                 "engine": c["engine"],
-                "level_claimed": {"category": "model_checking", "text": c["text"], "design_ref": c["design"]},
+                "level_claimed": {"category": c.get("category", "model_checking"), "text": c["text"], "design_ref": c["design"]},
                 "level_note": c["note"],
                 "technique": c["technique"],
             }
